@@ -78,6 +78,8 @@ pub struct PortState {
     pub call_cap: usize,
     pub cap_hit: bool,
     /// a slow line: every write()/read() call blocks for this long before it returns
+    /// every flush() call fails with this kind
+    pub fail_flush: Option<io::ErrorKind>,
     pub write_block: Option<Duration>,
     pub read_block: Option<Duration>,
 }
@@ -135,6 +137,7 @@ impl PortState {
             order: vec![],
             call_cap: 100_000,
             cap_hit: false,
+            fail_flush: None,
             write_block: None,
             read_block: None,
         }
@@ -227,8 +230,12 @@ impl Write for TestPort {
     }
 
     fn flush(&mut self) -> io::Result<()> {
-        self.st.borrow_mut().flush_calls += 1;
-        Ok(())
+        let mut s = self.st.borrow_mut();
+        s.flush_calls += 1;
+        match s.fail_flush {
+            Some(k) => Err(io::Error::new(k, "injected flush fault")),
+            None => Ok(()),
+        }
     }
 }
 
